@@ -192,6 +192,8 @@ func (x *verifC15Run) record(actor byte, seq int, kind string, frames int, f fun
 	res := "ok"
 	if err == ErrCloseSent {
 		res = "closesent"
+	} else if err == errWriteTimeout {
+		res = "timeout" // a control write whose deadline expired while it waited for the write lock: nothing was written
 	} else if err != nil {
 		res = "other:" + err.Error()
 	}
@@ -215,6 +217,7 @@ type verifC15Plan struct {
 	nPings    int // pings fed to the reader (answered by the default handler from the reader goroutine)
 	closeMode int // 0 none, 1 Close frame via WriteControl, 2 Close() of the connection
 	closeAt   int // the closer fires when the global op counter reaches this value
+	shortDeadlines bool // some control writes carry a deadline short enough to expire while they wait for the lock
 }
 
 func verifC15GenPlan(r *vrand.Rand) verifC15Plan {
@@ -224,6 +227,7 @@ func verifC15GenPlan(r *vrand.Rand) verifC15Plan {
 		p.dataAPI = append(p.dataAPI, r.Intn(3))
 	}
 	p.closeAt = r.Range(0, p.nData+p.nCtl*p.ctlFrames)
+	p.shortDeadlines = r.Chance(1, 3)
 	return p
 }
 
@@ -276,13 +280,17 @@ func (x *verifC15Run) writeData(p verifC15Plan, seq int) error {
 }
 
 func (x *verifC15Run) writeCtl(actor byte, seq int) error {
+	return x.writeCtlDeadline(actor, seq, time.Hour)
+}
+
+func (x *verifC15Run) writeCtlDeadline(actor byte, seq int, wait time.Duration) error {
 	kind, mt := "ping", PingMessage
 	if (int(actor)+seq)%2 == 0 {
 		kind, mt = "pong", PongMessage
 	}
 	payload := verifPayload(actor, seq, 4+(seq*11+int(actor))%120)
 	return x.record(actor, seq, kind, 1, func() error {
-		return x.conn.WriteControl(mt, payload, time.Now().Add(time.Hour))
+		return x.conn.WriteControl(mt, payload, time.Now().Add(wait))
 	})
 }
 
@@ -423,6 +431,9 @@ func (x *verifC15Run) judge(p verifC15Plan, rep map[string]interface{}, mode str
 				m.Violationf("c15:api-result-vs-wire"+scope, rep, "data message %d: API result %q but delivered-on-wire=%v; plan %s", o.seq, o.result, delivered[o.seq], p)
 			}
 		}
+		if o.result == "timeout" {
+			m.Count("control_write_timeouts", 1)
+		}
 		if o.kind == "close" && o.result == "ok" && !closeOnWire {
 			m.Violationf("c15:api-result-vs-wire"+scope, rep, "close reported ok but no Close frame on the wire; plan %s", p)
 		}
@@ -448,6 +459,8 @@ func (x *verifC15Run) judge(p verifC15Plan, rep map[string]interface{}, mode str
 					return !closed, closed
 				case "closesent":
 					return closed, closed
+				case "timeout":
+					return true, closed // gave up waiting for the lock: no effect either way
 				}
 				return false, closed
 			},
@@ -494,7 +507,9 @@ type verifC15Controller struct {
 	directed bool
 }
 
-func verifC15Execute(m *mon.M, p verifC15Plan, ctl verifC15Controller, rep map[string]interface{}, mode string, launchRest func(x *verifC15Run, wg *sync.WaitGroup)) {
+// verifC15Execute reports false when its watchdog fired: the caller stops the part (a lost or
+// blocked write lock would otherwise cost one watchdog period per remaining run).
+func verifC15Execute(m *mon.M, p verifC15Plan, ctl verifC15Controller, rep map[string]interface{}, mode string, launchRest func(x *verifC15Run, wg *sync.WaitGroup)) bool {
 	x := verifC15NewRun(m, p)
 	x.yield = ctl.yield
 	if ctl.gate != nil {
@@ -533,7 +548,11 @@ func verifC15Execute(m *mon.M, p verifC15Plan, ctl verifC15Controller, rep map[s
 			m.Go(&writers, "ws.c15.ctl", func() {
 				for s := 0; s < p.ctlFrames; s++ {
 					maybeClose()
-					x.writeCtl(actor, s)
+					if p.shortDeadlines && (s+int(actor))%3 == 0 {
+						x.writeCtlDeadline(actor, s, 30*time.Microsecond) // may expire while queued behind a frame in flight
+					} else {
+						x.writeCtl(actor, s)
+					}
 				}
 			})
 		}
@@ -555,12 +574,16 @@ func verifC15Execute(m *mon.M, p verifC15Plan, ctl verifC15Controller, rep map[s
 	}()
 	select {
 	case <-waitCh:
-	case <-time.After(30 * time.Second): // watchdog only
-		m.Inconclusive("watchdog: a C15 " + mode + " run did not finish within 30s (possible lost write lock); plan " + p.String())
-		return
+	case <-time.After(20 * time.Second): // watchdog only
+		m.Inconclusive("watchdog: a C15 " + mode + " run did not finish within 20s (possible lost or blocked write lock); plan " + p.String())
+		// what was observed up to here is still judged: the lock-discipline events and the wire so far
+		VerifHook = nil
+		x.judge(p, rep, mode+":hung")
+		return false
 	}
 	VerifHook = nil
 	x.judge(p, rep, mode)
+	return true
 }
 
 // ---- stress mode ----------------------------------------------------------------------------
@@ -599,7 +622,9 @@ func TestVerif_C15_Stress(t *testing.T) {
 		}
 		m.Case()
 		rep := map[string]interface{}{"case": i, "plan": p.String()}
-		verifC15Execute(m, p, verifC15Controller{yield: func(string) { perturb() }, gate: func(*verifC15Run, []byte) { perturb() }}, rep, "stress", nil)
+		if !verifC15Execute(m, p, verifC15Controller{yield: func(string) { perturb() }, gate: func(*verifC15Run, []byte) { perturb() }}, rep, "stress", nil) {
+			break
+		}
 	}
 }
 
@@ -630,7 +655,7 @@ func TestVerif_C15_Directed(t *testing.T) {
 			p.dataAPI = append(p.dataAPI, r.Intn(3))
 		}
 		// actors: P,Q,R control senders, H ping feed, C closer: each gets a stop index (mixed radix from the case index)
-		actors := []byte{'P', 'Q', 'R', 'H'}
+		actors := []byte{'P', 'Q', 'R', 'H', 'T'} // T: a control write whose deadline expires while it is queued
 		if p.closeMode != 0 {
 			actors = append(actors, 'C')
 		}
@@ -649,8 +674,16 @@ func TestVerif_C15_Directed(t *testing.T) {
 		stop := 0
 		var stopMu sync.Mutex
 		launchAt := func(x *verifC15Run, s int, wg *sync.WaitGroup, final bool) {
-			var gids []*int64
+			var gids, timeouts []*int64
+			// the expiring write goes first, so that the others arrive after its deadline has passed
+			sort.Slice(actors, func(i, j int) bool { return actors[i] == 'T' && actors[j] != 'T' })
 			for _, a := range actors {
+				if len(timeouts) > 0 && a != 'T' {
+					// wait (bounded) for the expiring write to give up before the next actor is launched
+					for spin := 0; spin < 2000 && atomic.LoadInt64(timeouts[0]) != -1; spin++ {
+						time.Sleep(10 * time.Microsecond)
+					}
+				}
 				st, ok := stopOf[a]
 				if !ok || !(st == s || (final && st >= s)) {
 					continue
@@ -670,6 +703,13 @@ func TestVerif_C15_Directed(t *testing.T) {
 						x.writeClose(p.closeMode)
 						atomic.StoreInt64(gid, -1)
 					})
+				case 'T':
+					m.Go(wg, "ws.c15.ctl-timeout", func() {
+						atomic.StoreInt64(gid, verifGoid())
+						x.writeCtlDeadline(actor, 0, 100*time.Microsecond)
+						atomic.StoreInt64(gid, -1)
+					})
+					timeouts = append(timeouts, gid)
 				default:
 					m.Go(wg, "ws.c15.ctl", func() {
 						atomic.StoreInt64(gid, verifGoid())
@@ -725,10 +765,13 @@ func TestVerif_C15_Directed(t *testing.T) {
 		rep := map[string]interface{}{"case": i, "plan": p.String()}
 		var hold sync.WaitGroup
 		wgp = &hold
-		verifC15Execute(m, p, ctl, rep, "directed", func(x *verifC15Run, wg *sync.WaitGroup) {
+		finished := verifC15Execute(m, p, ctl, rep, "directed", func(x *verifC15Run, wg *sync.WaitGroup) {
 			launchAt(x, stop, &hold, true)
 			hold.Wait()
 		})
+		if !finished {
+			break
+		}
 		rep["launched"] = launched
 		m.Count("stops_used", int64(stop))
 	}
